@@ -109,9 +109,9 @@ def run(rep, tier, seed):
     specs = []
     for name, body in bs:
         src = f"(fn* [p0 p1 p2] {body})"
-        specs.append(c01.mk_spec("C02", name + "/opts=default", src, (False, True, True), 30 if quick else 150, check_trace=True))
+        specs.append(c01.mk_spec("C02", name + "/opts=default", src, (False, True, True), 30 if quick else 90, check_trace=True))
         if not quick:
-            specs.append(c01.mk_spec("C02", name + "/opts=no-inline", src, (False, False, False), 150, check_trace=True))
+            specs.append(c01.mk_spec("C02", name + "/opts=no-inline", src, (False, False, False), 90, check_trace=True))
     rep.extra["programs"] = len(specs)
     rep.bounds = {"programs": f"{len(ENCLOSING)} enclosing forms x argument position <= 3 x {len(ARG_KINDS) - 1} compound sibling kinds + "
                               f"{len(EXTRA)} extra programs = {len(bodies())}; this run {len(specs)}",
